@@ -1,4 +1,5 @@
 pub mod c01;
 pub mod c04;
 pub mod c11;
+pub mod cli;
 pub mod place;
